@@ -47,28 +47,28 @@ type Defect string
 
 const (
 	NoDefect          Defect = ""
-	DefBothVotingEKU  Defect = "both-voting-eku"     // id-kp-sensitive and id-kp-regular
-	DefNoTimeStamping Defect = "no-timestamping"     // voting cert without id-kp-timeStamping
-	DefServerAuth     Defect = "server-auth"         // id-kp-serverAuth on voting/root cert
-	DefClientAuth     Defect = "client-auth"         // id-kp-clientAuth on voting/root cert
-	DefDigitalSig     Defect = "digital-signature"   // key usage digitalSignature on voting/root cert
-	DefVotingCertSign Defect = "voting-cert-sign"    // key usage keyCertSign on voting cert
-	DefVotingIsCA     Defect = "voting-is-ca"        // basic constraints cA=TRUE on voting cert
-	DefNoSKID         Defect = "no-skid"             // subject key identifier missing (voting)
-	DefAKIMismatch    Defect = "aki-mismatch"        // self-signed, authority key id != subject key id
-	DefEd25519        Defect = "ed25519-signature"   // signature algorithm not on the SCION list
-	DefRootNoIA       Defect = "root-no-ia"          // root without ISD-AS attribute
-	DefRootNotCA      Defect = "root-not-ca"         // id-kp-root without cA / keyCertSign
-	DefNoUsage        Defect = "no-usage"            // neither key usage nor extended key usage
-	DefNonCanonIA     Defect = "non-canonical-ia"    // ISD-AS attribute in non-canonical spelling
-	DefWildcardIA     Defect = "wildcard-ia"         // ISD-AS attribute with wildcard AS
-	DefCriticalSKID   Defect = "critical-skid"       // subject key identifier marked critical
+	DefBothVotingEKU  Defect = "both-voting-eku"   // id-kp-sensitive and id-kp-regular
+	DefNoTimeStamping Defect = "no-timestamping"   // voting cert without id-kp-timeStamping
+	DefServerAuth     Defect = "server-auth"       // id-kp-serverAuth on voting/root cert
+	DefClientAuth     Defect = "client-auth"       // id-kp-clientAuth on voting/root cert
+	DefDigitalSig     Defect = "digital-signature" // key usage digitalSignature on voting/root cert
+	DefVotingCertSign Defect = "voting-cert-sign"  // key usage keyCertSign on voting cert
+	DefVotingIsCA     Defect = "voting-is-ca"      // basic constraints cA=TRUE on voting cert
+	DefNoSKID         Defect = "no-skid"           // subject key identifier missing (voting)
+	DefAKIMismatch    Defect = "aki-mismatch"      // self-signed, authority key id != subject key id
+	DefEd25519        Defect = "ed25519-signature" // signature algorithm not on the SCION list
+	DefRootNoIA       Defect = "root-no-ia"        // root without ISD-AS attribute
+	DefRootNotCA      Defect = "root-not-ca"       // id-kp-root without cA / keyCertSign
+	DefNoUsage        Defect = "no-usage"          // neither key usage nor extended key usage
+	DefNonCanonIA     Defect = "non-canonical-ia"  // ISD-AS attribute in non-canonical spelling
+	DefWildcardIA     Defect = "wildcard-ia"       // ISD-AS attribute with wildcard AS
 )
 
 // VotingDefects / RootDefects list the defects applicable to each kind.
 var (
 	VotingDefects = []Defect{DefBothVotingEKU, DefNoTimeStamping, DefServerAuth, DefClientAuth, DefDigitalSig,
-		DefVotingCertSign, DefVotingIsCA, DefNoSKID, DefAKIMismatch, DefEd25519, DefNoUsage, DefNonCanonIA, DefWildcardIA}
+		DefVotingCertSign, DefVotingIsCA, DefNoSKID, DefAKIMismatch, DefEd25519, DefNoUsage, DefNonCanonIA,
+		DefWildcardIA}
 	RootDefects = []Defect{DefServerAuth, DefClientAuth, DefDigitalSig, DefAKIMismatch, DefEd25519, DefRootNoIA,
 		DefRootNotCA, DefNonCanonIA, DefWildcardIA}
 )
@@ -242,12 +242,6 @@ func Issue(spec CertSpec) (*Cert, error) {
 		t.BasicConstraintsValid, t.IsCA, t.MaxPathLen = false, false, 0
 	case DefNoUsage:
 		t.KeyUsage, t.ExtKeyUsage, t.UnknownExtKeyUsage = 0, nil, nil
-	case DefCriticalSKID:
-		// replaced below through ExtraExtensions
-		v, _ := asn1.Marshal(t.SubjectKeyId)
-		t.SubjectKeyId = nil
-		t.ExtraExtensions = append(t.ExtraExtensions, pkix.Extension{
-			Id: asn1.ObjectIdentifier{2, 5, 29, 14}, Critical: true, Value: v})
 	default:
 		return nil, fmt.Errorf("pkitrcgen: unknown defect %q", spec.Defect)
 	}
